@@ -30,34 +30,46 @@ func TestMain(m *testing.M) {
 	evid.Main(m, ev)
 }
 
-// invariant checks the whole BMC log.
-func invariant(b *simbmc.BMC, bs *simbmc.Session) error {
-	next := uint32(1)
+// invariant checks the whole BMC log: per BMC session the sequence fields in
+// arrival order are 1,2,3,...; session-less datagrams carry 0/0; nothing is
+// addressed to an unknown session.
+func invariant(b *simbmc.BMC, sessions ...*simbmc.Session) error {
+	next := map[uint32]uint32{}
+	known := map[uint32]bool{}
+	for _, s := range sessions {
+		if s != nil {
+			known[s.ID] = true
+			next[s.ID] = 1
+		}
+	}
 	for _, rx := range b.Log {
 		if rx.Pkt == nil {
 			return fmt.Errorf("datagram %d does not parse as RMCP+: %v (% x)", rx.N, rx.PktErr, rx.Raw)
 		}
+		id := rx.Pkt.SessionID
 		switch {
-		case rx.Pkt.SessionID == 0:
+		case id == 0:
 			if rx.Pkt.Seq != 0 {
 				return fmt.Errorf("datagram %d outside a session carries sequence number %d", rx.N, rx.Pkt.Seq)
 			}
-		case bs != nil && rx.Pkt.SessionID == bs.ID:
-			if rx.Pkt.Seq != next {
-				return fmt.Errorf("datagram %d is the %d-th of the session but carries sequence number %d", rx.N, next, rx.Pkt.Seq)
+		case known[id]:
+			if rx.Pkt.Seq != next[id] {
+				return fmt.Errorf("datagram %d is the %d-th of session %#x but carries sequence number %d", rx.N, next[id], id, rx.Pkt.Seq)
 			}
-			next++
+			next[id]++
 		default:
-			return fmt.Errorf("datagram %d addressed to session ID %#x, which is neither 0 nor the BMC's session %v", rx.N, rx.Pkt.SessionID, bs)
+			return fmt.Errorf("datagram %d addressed to session ID %#x, which is neither 0 nor one of the BMC's sessions", rx.N, id)
 		}
 	}
 	return nil
 }
 
 type history struct {
-	w    *hx.World
-	sess *bmc.V2Session
-	bs   *simbmc.Session
+	w     *hx.World
+	sess  *bmc.V2Session
+	bs    *simbmc.Session
+	sess2 *bmc.V2Session
+	bs2   *simbmc.Session
 	sc   *hx.Scripter
 	desc []string
 	retx int
@@ -78,6 +90,33 @@ func newHistory(suite ref.Suite, seed uint64) (*history, error) {
 	h.sess, h.bs = s, w.BMC.ActiveSession()
 	h.sc.Install(w.BMC)
 	return h, nil
+}
+
+// second opens another session over the same connection.
+func (h *history) second() error {
+	h.w.BMC.Intercept = nil
+	c := hx.Creds{User: "op", Password: []byte("secret"), Priv: 4, Suite: hx.Suites9()[int(h.bs.ID)%9]}
+	s, err := h.w.T.NewV2Session(context.Background(), c.Opts())
+	h.sc.Install(h.w.BMC)
+	if err != nil {
+		return err
+	}
+	h.sess2, h.bs2 = s, h.w.BMC.Sessions[s.RemoteID]
+	h.desc = append(h.desc, "open second session")
+	return nil
+}
+
+// commandOn runs a scripted command on the given session.
+func (h *history) commandOn(s *bmc.V2Session, cmd ipmi.Command, script []hx.Outcome) {
+	h.sc.Script, h.sc.Pos = script, 0
+	start := h.w.Net.Sends
+	ctx, cancel := h.w.Ctx(len(script) + 1)
+	s.SendCommand(ctx, cmd)
+	cancel()
+	if n := h.w.Net.Sends - start; n > 1 {
+		h.retx += n - 1
+	}
+	h.desc = append(h.desc, fmt.Sprintf("session %#x:%s:%s", s.RemoteID, cmd.Name(), hx.ScriptString(script)))
 }
 
 // command runs one scripted command, inside or outside the session.
@@ -183,16 +222,36 @@ func TestStateMachine(t *testing.T) {
 				h.sc.Install(h.w.BMC)
 				h.command(true, call.Cmd, genScript())
 			},
+			"openSecondSession": func(t *rapid.T) {
+				if h.sess2 != nil {
+					t.Skip("already open")
+				}
+				if err := h.second(); err != nil {
+					t.Fatalf("second session: %v", err)
+				}
+			},
+			"secondSessionCommand": func(t *rapid.T) {
+				if h.sess2 == nil || steps >= 60 {
+					t.Skip("no second session")
+				}
+				steps++
+				call := rapid.SampledFrom(cat).Draw(t, "command").Prepare(t, h.w.BMC)
+				h.sc.Install(h.w.BMC)
+				h.commandOn(h.sess2, call.Cmd, genScript())
+			},
 			"sessionlessCommand": func(t *rapid.T) {
 				cmd := pickCmd(rapid.IntRange(0, 3).Draw(t, "cmd"))
 				h.command(false, cmd, genScript())
 			},
 			"": func(t *rapid.T) {
-				if err := invariant(h.w.BMC, h.bs); err != nil {
+				if err := invariant(h.w.BMC, h.bs, h.bs2); err != nil {
 					t.Fatalf("history %v: %v", h.desc, err)
 				}
 			},
 		})
+		if h.sess2 != nil {
+			ev.Label("two-sessions-interleaved")
+		}
 		ev.Eval()
 		if h.retx > 0 {
 			ev.NonTrivial(fmt.Sprint(h.desc))
@@ -204,7 +263,7 @@ func TestStateMachine(t *testing.T) {
 }
 
 func TestCoverage(t *testing.T) {
-	ev.RequireLabels(t, 1, "enumeration-complete", "history-with-retransmission")
+	ev.RequireLabels(t, 1, "enumeration-complete", "history-with-retransmission", "two-sessions-interleaved")
 }
 
 func min(a, b int) int {
